@@ -32,6 +32,96 @@ def hooked_source(ck):
     return dst, "hooks applied to a temporary copy of the current file (patches/C46-hook-MFrontLock.cxx.diff)"
 
 
+# ---------------------------------------------------------------- the lock-protected sections (anchored callers)
+GUARD_SITES = [
+    # (file, start of the function, first statement that must be inside the protected section)
+    ("mfront/src/MFront.cxx", "void MFront::analyseTargetsFile() {", r"std::ifstream\s+test\{"),
+    ("mfront/src/MFront.cxx", "void MFront::generateDefsFiles() {", r"std::ofstream\s+def\{"),
+    ("mfront/src/MFront.cxx", "void MFront::writeTargetsDescription() const {", r"std::ofstream\s+file\{"),
+    ("mfront/src/CMakeGenerator.cxx", "void generateCMakeListsFile(", r"std::ofstream\s+m\("),
+    ("mfront/src/MakefileGenerator.cxx", "void generateMakeFile(", r"std::ofstream\s+m\("),
+]
+
+
+def strip_cxx(text):
+    """comments and string/char literals blanked (same length, line structure kept)"""
+    import re
+    def blank(m):
+        return re.sub(r"[^\n]", " ", m.group(0))
+    return re.sub(r'//[^\n]*|/\*.*?\*/|"(?:\\.|[^"\\\n])*"|\'(?:\\.|[^\'\\\n])*\'', blank, text, flags=re.S)
+
+
+def check_guard_sites(ck):
+    """Structural tie of the callers anchored by the property (MFront.cxx, CMakeGenerator.cxx, MakefileGenerator.cxx):
+    the sections the theorems call `critical` are the scopes of named `MFrontLockGuard` objects. Every recorded
+    site must still declare a named guard at the top level of the function, before the first access to the
+    shared file, and nothing in these files may use the lock otherwise (temporary guard, explicit lock()/unlock()).
+    Returns the number of sites verified."""
+    import re
+    ok = 0
+    texts = {}
+    for rel, start, first in GUARD_SITES:
+        if rel not in texts:
+            try:
+                texts[rel] = strip_cxx(open(os.path.join(vlib.REPO, rel)).read())
+            except OSError as e:
+                ck.violation("tie:guard-site:" + rel, "cannot read %s: %r" % (rel, e), {"file": rel}, False)
+                texts[rel] = ""
+        t = texts[rel]
+        a = t.find(start)
+        if a < 0:
+            ck.violation("tie:guard-site:%s:%s" % (rel, start.split("(")[0].split()[-1]), "%s: function `%s` not found" % (rel, start),
+                         {"file": rel, "function": start}, False)
+            continue
+        # body of the function: from the first `{` at or after the signature to its matching `}`
+        i = t.index("{", a + len(start) - 1)
+        depth, j = 0, i
+        while j < len(t):
+            if t[j] == "{":
+                depth += 1
+            elif t[j] == "}":
+                depth -= 1
+                if depth == 0:
+                    break
+            j += 1
+        body = t[i:j + 1]
+        name = start.split("(")[0].split()[-1]
+        # named guard declared at depth 1
+        g = None
+        d = 0
+        for m in re.finditer(r"[{}]|\bMFrontLockGuard\s+[A-Za-z_]\w*\s*;", body):
+            tok = m.group(0)
+            if tok == "{":
+                d += 1
+            elif tok == "}":
+                d -= 1
+            elif d == 1 and g is None:
+                g = m.start()
+        f = re.search(first, body)
+        why = None
+        if g is None:
+            why = "no named MFrontLockGuard object is declared at the top level of the function (a temporary `MFrontLockGuard{}` or a guard in an inner block is released before the section ends)"
+        elif f is None:
+            why = "the first access to the shared file (`%s`) was not found" % first
+        elif f.start() < g:
+            why = "the shared file is opened before the lock is taken"
+        if why:
+            ck.violation("%s:%s:unprotected-section" % (rel, name),
+                         "%s, %s: %s; two mfront processes can be inside this section together" % (rel, name, why),
+                         {"file": rel, "function": name, "expected": "`MFrontLockGuard <name>;` at the top level of the function, before `%s`" % first,
+                          "lines_mentioning_the_lock": [l.strip() for l in body.splitlines() if "MFrontLock" in l]}, False)
+        else:
+            ok += 1
+    for rel, t in texts.items():
+        odd = [l.strip() for l in t.splitlines()
+               if "MFrontLock" in l and not re.match(r"\s*(#include.*|MFrontLockGuard\s+[A-Za-z_]\w*\s*;)\s*$", l)]
+        if odd:
+            ck.violation("%s:lock-used-outside-a-guard" % rel,
+                         "%s uses the lock otherwise than through a named MFrontLockGuard object: %s" % (rel, odd[:3]),
+                         {"file": rel, "lines": odd[:10]}, False)
+    return ok
+
+
 def gen_scenarios(rng, quick):
     """list of (name, kind, text, expected counts)"""
     out = []
@@ -122,6 +212,7 @@ def run(ck):
         for m, log in ck.leanchecker(PROPS):
             ck.violation("leanchecker:" + m, "leanchecker rejects " + m, {"log": log}, False)
 
+    guard_sites_ok = check_guard_sites(ck)
     scen = gen_scenarios(rng, ck.quick)
     nworkers = 4
     chunks = [scen[i::nworkers] for i in range(nworkers)]
@@ -244,6 +335,7 @@ def run(ck):
     ck.assumptions += [
         "M: the transition system of Model.lean is tied to MFrontLock.cxx by trace validation: hooks (guard TFEL_VERIF_HOOKS) log one event per atomic section; every history logged by real processes must be accepted by the model and the observed sem_getvalue / overlap detector must agree (differential testing over the histories run, not proof)",
         "POSIX named-semaphore semantics are modelled, not verified: sem_open(O_CREAT,1) initialises only on creation, sem_wait/sem_post atomic, the semaphore persists across processes, nobody else posts or unlinks it; reboot (/dev/shm cleared) restarts the history",
+        "the callers anchored by the property (MFront.cxx analyseTargetsFile / generateDefsFiles / writeTargetsDescription, CMakeGenerator.cxx generateCMakeListsFile, MakefileGenerator.cxx generateMakeFile) are not executed: a structural tie checks on every run that each still declares a named MFrontLockGuard at the top level of the function before the shared file is opened and uses the lock in no other way (the critical sections of the theorems are the scopes of such guards)",
         "processes are single-threaded in their use of the lock; sem_wait interrupted by a signal is the model step `intr` (count unchanged, nothing acquired; the code may raise or retry, never enter); a process killed inside a critical section leaves the lock taken (deadlock, not a mutual-exclusion failure) - stated by the theorems' hypotheses",
         "the log order is the kernel's order of O_APPEND writes: `lock` is logged after sem_wait returned and `unlock` before sem_post, so the log is a linearisation of the semaphore operations",
         hook_note,
@@ -259,5 +351,6 @@ def run(ck):
         "event_kinds": kinds, "observed_semaphore_values": values,
         "sem_wait_interrupted": interrupted, "lock_refused_after_interrupt": refused,
         "max_processes_in_a_history": max(s["procs"] for s in scen),
+        "guard_sites_verified": guard_sites_ok, "guard_sites_recorded": len(GUARD_SITES),
         "exhaustive": False,
     })
